@@ -19,3 +19,4 @@
 (declare-fun nav_value (Pos) Str)
 (declare-fun nav_nsurl (Pos) Str)
 (declare-fun nodetype_ (Pos) INTSORT)   ; what NodeType() returns at a position (0..4, as a Go int)
+(declare-fun ancn (Pos Int) Pos)        ; the n-th ancestor (ancn(p,0) = p), defined by the instance ancnStep
